@@ -238,7 +238,10 @@ func oneWay(w io.Writer, r io.Reader, n int, what string) error {
 	rand.Read(msg)
 	werr := make(chan error, 1)
 	go func() {
-		_, err := w.Write(msg)
+		n, err := w.Write(msg)
+		if err == nil && n != len(msg) {
+			err = fmt.Errorf("Write returned (%d, nil) for %d bytes: a short write without an error", n, len(msg))
+		}
 		werr <- err
 	}()
 	got := make([]byte, n)
